@@ -473,6 +473,7 @@ var c18Observe = map[string]interface{}{"ids": []interface{}{"a", "b", "c", "d",
 	"eids": []interface{}{"e1", "e2", "e3"}, "labels": []interface{}{"L", "M", "N"}}
 
 type c18Gen struct {
+	good map[string]bool // see bulkCase
 	r *Run
 }
 
@@ -546,6 +547,18 @@ func (g *c18Gen) stream(n int, pool []string, stay int) (ops []map[string]interf
 		switch k := rnd.Intn(40); {
 		case k == 0:
 			g.r.Count("elem:empty")
+		case (k == 1 || k == 2) && g.good[cur]:
+			// an element carrying a vertex AND an edge: two elements for the count and for the store
+			v, okv := g.vert()
+			e, oke := g.edge()
+			op["v"], op["e"] = v, e
+			if okv {
+				valid++
+			}
+			if oke {
+				valid++
+			}
+			g.r.Count("elem:vertex+edge")
 		case k < 22:
 			v, ok := g.vert()
 			op["v"] = v
@@ -611,8 +624,21 @@ func (g *c18Gen) bulkCase(n int) []map[string]interface{} {
 		reset["pre"] = pre
 		g.r.Count("case:preloaded")
 	}
+	// graphs for which the per-ELEMENT checks of BulkAdd pass (the graph exists and may be written):
+	// only there is an element carrying a vertex and an edge the same as the two sent one after the
+	// other (elsewhere the element is ONE error; the MODEL has no such item)
+	g.good = map[string]bool{}
+	for _, e := range existing {
+		g.good[e] = true
+	}
+	if d, ok := reset["deny"].([]interface{}); ok {
+		for _, x := range d {
+			delete(g.good, x.(string))
+		}
+	}
 	stay := []int{0, 50, 80, 95}[rnd.Intn(4)]
 	sends, valid := g.stream(n, pool, stay)
+	g.good = nil
 	ops := []map[string]interface{}{reset}
 	ops = append(ops, sends...)
 	cl := map[string]interface{}{"op": "close"}
